@@ -100,6 +100,10 @@ def sample_value(it: Interp, model, field: str, info, none: bool):
             return {"902": Obj("ahbicht.models.condition_nodes.EvaluatedFormatConstraint", {"format_constraint_fulfilled": False, "error_message": "m"})}
         return {"501": "text", "7P": "[1] U [2]"} if "packages" not in field else {"7P": "[1] U [2]"}
     if "List" in ann:
+        if field == "package_keys":
+            return ["2P", "1P", "10P", "2P"]
+        if field == "time_condition_keys":
+            return ["UB2", "UB1", "UB3", "UB2"]
         return ["2", "1", "10", "2"]
     if "RequirementIndicator" in ann:
         return it.enum(f"{ENUMS}.PrefixOperator", "U")
